@@ -321,6 +321,14 @@ impl World {
                         &addrs.pricefeed,
                         json!({"append_price": {"key": KEYS[i], "price": v.oracle_price.to_string(), "timestamp": cfg.start_time}}),
                     )?;
+                    if i == 0 && cfg.prefix_vamms && cfg.vamms.len() >= 2 {
+                        // unrelated deployments until the next contract number is this vAMM's number followed by 0
+                        if let Some(n) = va.strip_prefix("contract").and_then(|x| x.parse::<u64>().ok()) {
+                            for k in (n + 1)..(n * 10) {
+                                inst(&mut app, fp_id, &r.fp_owner, json!({}), &format!("unrelated{}", k))?;
+                            }
+                        }
+                    }
                     addrs.vamms.push(va);
                 }
                 exec(&mut app, &r.fp_owner, &addrs.fee_pool, json!({"add_token": {"token": collateral}}))?;
